@@ -10,19 +10,23 @@ Inductive yaml :=
 | YNull | YBool (b : bool) | YNum (lit : string) | YStr (s : string)
 | YSeq (xs : list yaml) | YMap (kvs : list (yaml * yaml)) | YTag (tag : string) (v : yaml).
 
-Definition sd_tag : string := "!sd".
 
 (* "/a/b/0" from path segments (keys already escaped as JSON pointer tokens, repair F17c); "" for the root *)
 Fixpoint render_segs (segs : list string) : string :=
   match segs with [] => "" | s :: r => "/" ++ s ++ render_segs r end.
 
+Definition sd_tag : string := "!sd".
+
 (* the member name the YAML -> JSON conversion gives a scalar key that is not a string: its re-serialised text
    (serde_yaml prints the number, true/false, null; serde_json reads the key as a string) *)
-Definition key_name (k : yaml) : option string :=
+Fixpoint key_name (k : yaml) : option string :=
   match k with
   | YNum l => Some l
   | YBool true => Some "true" | YBool false => Some "false"
   | YNull => Some "null"
+  (* repair F28: a key that carries a tag other than !sd keeps the name of the scalar under the tag (the conversion
+     drops tags of keys); tags below such a key are collected as below any other key *)
+  | YTag t v => if String.eqb t sd_tag then None else match v with YStr s => Some s | _ => key_name v end
   | _ => None end.
 
 (* collect_tagged_keys: returns the tree with the !sd tags of keys and string items removed, and the
@@ -43,7 +47,13 @@ Fixpoint collect (path : list string) (y : yaml) : res (yaml * list string) :=
                                do (rest', ps') <- go rest;
                                Ok ((YStr ks, v') :: rest', (ps ++ [render_segs (path ++ [esc_tok ks])] ++ ps')%list)
                            | _ => Err end
-                         else do (rest', ps') <- go rest; Ok ((k, v) :: rest', ps')
+                         else
+                           match key_name k with
+                           | Some n =>
+                               do (v', ps) <- collect (path ++ [esc_tok n]) v;
+                               do (rest', ps') <- go rest;
+                               Ok ((k, v') :: rest', (ps ++ ps')%list)
+                           | None => do (rest', ps') <- go rest; Ok ((k, v) :: rest', ps') end
                      | YStr ks =>
                          do (v', ps) <- collect (path ++ [esc_tok ks]) v;
                          do (rest', ps') <- go rest;
@@ -79,6 +89,11 @@ Fixpoint collect (path : list string) (y : yaml) : res (yaml * list string) :=
   | _ => Ok (y, [])
   end.
 
+(* a mapping with exactly one entry whose key carries a tag is what serde_yaml writes (and reads) as a tagged VALUE: the
+   conversion of such a mapping fails, while the tags of keys of larger mappings are dropped *)
+Definition singleton_tagged_key (kvs : list (yaml * yaml)) : bool :=
+  match kvs with [(YTag _ _, _)] => true | _ => false end.
+
 (* serde_yaml::to_string followed by from_str::<serde_json::Value>: structural, string keys only, no tags *)
 Fixpoint to_json (y : yaml) : res json :=
   match y with
@@ -89,7 +104,8 @@ Fixpoint to_json (y : yaml) : res json :=
   | YSeq xs => do l <- (fix go (l : list yaml) : res (list json) :=
                           match l with [] => Ok [] | x :: r => do j <- to_json x; do r' <- go r; Ok (j :: r') end) xs;
                Ok (JArr l)
-  | YMap kvs => do l <- (fix go (l : list (yaml * yaml)) : res (list (string * json)) :=
+  | YMap kvs => if singleton_tagged_key kvs then Err else
+                do l <- (fix go (l : list (yaml * yaml)) : res (list (string * json)) :=
                            match l with
                            | [] => Ok []
                            | (YStr k, v) :: r => do j <- to_json v; do r' <- go r; Ok ((k, j) :: r')
